@@ -479,6 +479,7 @@ def pipeline(ctx):
         else:
             prefix[-i - 1] = a
     unrecognized = {}
+    skipped = ctx.extra.setdefault('skipped_by_reason', {})
     for i, ((expr, R, fam, par, cul, dem, _car), res) in enumerate(zip(cases, results)):
         ctx.count('pipeline:%s:%s' % (cul, fam))
         want = oracle(fam, par, R)
@@ -517,7 +518,11 @@ def pipeline(ctx):
             unrecognized.setdefault((cul, expr), 0)
             unrecognized[(cul, expr)] += 1
             if not dem:
-                continue        # text known from parser-level Specs only: the extractor is not bound to find it on its own
+                # text known from parser-level Specs only (contract `level: parser`): the extractor is not bound to find it
+                # on its own — nothing is claimed, but every such case is counted (evidence `skipped_by_reason`)
+                k = 'not recognised, contract level parser (not demanded): %s' % cul
+                skipped[k] = skipped.get(k, 0) + 1
+                continue
             sig = 'unrecognized-%s-%s' % (cul, fam)
         elif cul == 'en-us':
             sig = 'relative-%s' % fam
